@@ -59,10 +59,17 @@ func genInbox(r *Rng, prop string, k int) *RunSpec {
 	st := newStd(o)
 	a := &st.W.Servers[0]
 	n3 := "https://" + hostA + "/n/3"
+	// the embedded likes / shares value is any of the four collection kinds
+	colOf := func(id, old string) J {
+		t := Pick(r, []string{"Collection", "Collection", "OrderedCollection", "CollectionPage", "OrderedCollectionPage"})
+		c := J{"type": t, "id": id}
+		c[itemsKey(c)] = []string{old}
+		return c
+	}
 	a.Docs = append(a.Docs,
 		DocSpec{n3, mustJSON(J{"@context": asCtx, "type": "Note", "id": n3, "content": "three",
-			"shares": J{"type": "Collection", "id": n3 + "/shares", "items": []string{"https://" + hostR + "/act/olds"}},
-			"likes":  J{"type": "Collection", "id": n3 + "/likes", "items": []string{"https://" + hostR + "/act/oldl"}}})},
+			"shares": colOf(n3+"/shares", "https://"+hostR+"/act/olds"),
+			"likes":  colOf(n3+"/likes", "https://"+hostR+"/act/oldl")})},
 		DocSpec{"https://" + hostA + "/f/2", mustJSON(J{"@context": asCtx, "type": "Follow", "id": "https://" + hostA + "/f/2", "actor": st.Alice.ID, "object": []string{st.Erin, st.Dave}})},
 		DocSpec{"https://" + hostA + "/f/3", mustJSON(J{"@context": asCtx, "type": "Follow", "id": "https://" + hostA + "/f/3", "actor": st.Carol.ID, "object": st.Dave})},
 		DocSpec{"https://" + hostA + "/f/4", mustJSON(J{"@context": asCtx, "type": "Like", "id": "https://" + hostA + "/f/4", "actor": st.Alice.ID, "object": st.Dave})},
@@ -183,6 +190,12 @@ func genInbox(r *Rng, prop string, k int) *RunSpec {
 			objs = []interface{}{st.Carol.ID}
 		case 1:
 			objs = []interface{}{st.Dave, embedActor(st.Alice.ID)}
+		case 2:
+			if r.Bool() {
+				// another actor of this server whose IRI differs from the inbox owner's only past the path (servers that
+				// tell their actors apart by query string), or only in a trailing slash: a different IRI is a different actor
+				objs = []interface{}{st.Alice.ID + Pick(r, []string{"?name=bailey", "#main-key", "/", "?"})}
+			}
 		}
 		f = J{"object": objs}
 	case "Accept", "Reject":
